@@ -33,7 +33,7 @@ REQUIRED_CLASSES = {"all": ["file_dir_replacement", "removed_dir_with_children",
 BUDGET_S = {"quick": 600, "thorough": 3600}
 NSHARD = 16
 
-LEAVES = ["sha256:x", "sha256:y", "symlink:a"]
+LEAVES = ["sha256:x", "sha256:y", "symlink:a", "symlink:A", "sha256:X"]  # incl. entries differing in letter case only
 
 
 def gen_trees(budget, depth, names=("a", "b")):
@@ -288,7 +288,8 @@ def run_shard(shard, tier, seed, rec):
     elif k in ("rand", "disk"):
         n = {"quick": 400, "thorough": 12000}[tier] if k == "rand" else {"quick": 60, "thorough": 1500}[tier]
         payload = st.one_of(D.contents().map(lambda h: ["f", h]), st.just(["d", {}]),
-                            D.trees(1, 2, with_links=False).map(lambda t: ["d", t]), st.just(["l", "no-such-entry"]))
+                            D.trees(1, 2, with_links=False).map(lambda t: ["d", t]),
+                            st.sampled_from(["no-such-entry", "No-Such-Entry"]).map(lambda t: ["l", t]))
         e = st.tuples(st.sampled_from(["add", "del", "replace", "replace", "empty"]), st.integers(0, 50), payload)
         strat = st.tuples(D.trees(3 if k == "rand" else 2, 4, with_links=(k == "disk")), st.lists(e, max_size=4),
                           st.integers(0, 20))
